@@ -1,23 +1,35 @@
-"""Known-findings matching. A finding lists the invariant tags it explains and a
-signature over the violating behaviour/event; a violation matches only if all
-signature parts match."""
-import re
+"""Known findings. A listed finding is identified by its reproducer behaviour
+(findings/<id>.json) and the invariant tags it violates there. Exploration avoids
+the trigger of every open finding through a named guard in the harness, so any
+violation found by exploration is new and is reported as VIOLATION. The file is
+never written at run time."""
+import json
+import os
+
+from core import VERIF, execute, validate
 
 
-def matches(f, v):
-    sig = f.get("signature", {})
-    if v["tag"] not in sig.get("tags", []):
-        return False
-    if "error_regex" in sig:
-        errs = " | ".join(e for e in v.get("errors", []) if e)
-        if not re.search(sig["error_regex"], errs):
-            return False
-    if "op_kinds_any" in sig:
-        kinds = {s.get("op", {}).get("k") for s in (v.get("behaviour") or {}).get("steps", []) if s.get("a") == "edit"}
-        if not (kinds & set(sig["op_kinds_any"])):
-            return False
-    if "needs_steps" in sig:
-        acts = {s.get("a") for s in (v.get("behaviour") or {}).get("steps", [])}
-        if not set(sig["needs_steps"]) <= acts:
-            return False
-    return True
+def open_findings(prop):
+    p = os.path.join(VERIF, "known-findings.json")
+    if not os.path.exists(p):
+        return []
+    return [f for f in json.load(open(p)).get("findings", []) if f.get("status") == "open" and prop in f["properties"]]
+
+
+def run_reproducers(ctx, prop):
+    """Runs the reproducers of the open findings of `prop` with the guards off.
+    Returns {id: what} for those that still violate their listed invariants."""
+    hits = {}
+    for f in open_findings(prop):
+        spec = json.load(open(os.path.join(VERIF, f["reproducer"])))
+        if spec.get("kind", "behaviour") != "behaviour":
+            continue
+        flags = list(spec.get("server_flags", [])) + ["-noguards"]
+        traces = execute(ctx, spec["behaviours"], "kf-" + f["id"], server_flags=flags, shards=1)
+        viols = validate(ctx, traces)
+        tags = {v["tag"] for v in viols}
+        if tags & set(spec["expect_tags"]):
+            hits[f["id"]] = "%s [%s] %s" % (f["id"], ",".join(sorted(tags & set(spec["expect_tags"]))), f["what"][:160])
+        else:
+            ctx.notes.append("finding %s no longer reproduces (violated now: %s)" % (f["id"], sorted(tags)))
+    return hits
